@@ -170,6 +170,8 @@ def run_checked(ctx):
         mc_sets = [("d1", d1), ("d1b", d1b), ("tmo", tmo), ("d2", d2)]
         ctx.exhaustive = True
     nprog = 0
+    if os.environ.get("C17_SKIP_MC"):          # development only (mutant loops): the model runs do not depend on the sources
+        mc_sets = []
     for name, trees in mc_sets:
         pp = write_progs(ctx, "mc_%s.json" % name, trees)
         nprog += len(trees)
